@@ -321,8 +321,13 @@ func (h *hHeap) apply(t int, op int) {
 // valueFor picks a value that may be stored into list t without creating a cycle:
 // ints, strings, the object, or list B (index 1) unless t is B itself.
 func (h *hHeap) valueFor(t int) (any, mval) {
-	k := nondetIntRange(0, 3)
+	k := nondetIntRange(0, 5)
 	switch k {
+	case 4:
+		b := nondetBool()
+		return b, mval{kind: TypeBool, b: b}
+	case 5:
+		return nil, mval{kind: TypeNil}
 	case 0:
 		v := nondetInt()
 		return v, mval{kind: TypeInt, i: v}
